@@ -40,14 +40,18 @@ EXTS = []
 RULE = ("random topologies (1-3 chains with explicit/absent/empty/2-char chain ids, 0-3 residues per chain with "
         "repeated resSeq incl. 0 and negative, default resSeq, long names, segment ids, 0-4 atoms per residue with "
         "duplicate names, virtual sites, absent/non-contiguous/duplicate/large serials, occasionally built out of "
-        "chain order; typed/ordered/duplicate bonds across residues and chains) followed by 1-7 ops from "
+        "chain order; typed/ordered/duplicate bonds across residues and chains; in a quarter of the cases a second "
+        "independent topology, in another quarter a twin differing in at most one attribute or in bond insertion order) "
+        "followed by 1-7 ops from "
         "{copy, copy.copy, deepcopy, Trajectory slice, pickle, subset(list/array/atom_slice), join/stack(keep_resSeq), "
         "to/from_dataframe, save+load .h5, save+load .pdb(ter), add_chain/add_residue/add_atom/add_bond/insert_atom/"
         "delete_atom_by_index on any topology}; observed: chain-wise dump with back pointers, _atoms/_residues list "
         "order, counters, bonds with identity facts, == and hash-equality matrices; a case is non-trivial when it "
         "has a transformation and at least two atoms; distinct by hash of the concrete op list")
 TRUSTED = ["harness/impl/topo_impl.py (concretises abstract ops against the live objects, dumps topologies)",
-           "generator and flag probes in harness/props/C04.py; comparison is done by vm_compute inside coqc",
+           "generator and flag probes in harness/props/C04.py",
+           "bulk evaluation of the Gallina model uses its OCaml extraction (ExtrOcamlBasic/ExtrOcamlString, "
+           "harness/impl/topo_driver.ml); every run cross-checks it against vm_compute inside coqc on the probe cases",
            "pandas, PyTables/HDF5, json, pickle are exercised, not modelled: the model describes what mdtraj puts in / takes out"]
 ASSUMPTIONS = ["hash() is modelled by the tuples that are hashed, xor-combined; distinct tuples are taken to have distinct hashes",
                "PDB runs use residue names outside mdtraj's replacement tables, existing element symbols, names without blanks, "
@@ -56,7 +60,7 @@ ASSUMPTIONS = ["hash() is modelled by the tuples that are hashed, xor-combined; 
                "delete out of range and join(keep_resSeq=False) onto an empty topology, plus KeyErrors caused by aliasing)"]
 
 FLAGS = ["cid_copy", "cid_join", "cid_subset", "repoint", "resseq0", "remove_id", "del_bonds", "hash",
-         "conect_num", "conect_del", "h5_full"]
+         "conect_num", "conect_del", "h5_full", "df_serial"]
 DESC = {
     "cid_copy": "Topology.copy()/deepcopy/Trajectory slicing loses every chain_id",
     "cid_join": "Topology.join()/Trajectory.stack loses the chain_id of the joined chains",
@@ -69,6 +73,8 @@ DESC = {
     "conect_num": "PDB CONECT records use positional numbers while ATOM records use atom.serial (or start at 0 without TER)",
     "conect_del": "PDB CONECT continuation drops a bond of atoms with more than four partners",
     "h5_full": "HDF5 topology JSON drops serial, chain_id, bond type and bond order",
+    "df_serial": "to_dataframe/from_dataframe turns a missing serial into float NaN when other atoms have serials "
+                 "(a later save_pdb of a single-chain topology then raises ValueError)",
 }
 
 RES_NAMES = ["LIG", "XXA", "UNK", "MOL", "LONGN", "AB", "LIG"]
@@ -152,10 +158,44 @@ def gen_tail(rng, n):
     return ops
 
 
+def gen_twin(rng, base):
+    """The same construction in slot 1 with (usually) one field changed: exercises == and hash on
+    topologies that are equal or differ in exactly one attribute."""
+    twin = [list(o) for o in base]
+    for o in twin:
+        if o[0] != "new":
+            o[1] = 1
+    cand = [i for i, o in enumerate(twin) if o[0] in ("add_atom", "add_residue", "add_chain", "add_bond")]
+    if cand and rng.random() < 0.85:
+        o = twin[rng.choice(cand)]
+        if o[0] == "add_atom":
+            k = rng.choice([3, 4, 5])
+            o[k] = rng.choice(ATOM_NAMES) if k == 3 else rng.choice(ELEMS) if k == 4 else rng.choice([None, 3, 1234])
+        elif o[0] == "add_residue":
+            k = rng.choice([3, 4, 5])
+            o[k] = rng.choice(RES_NAMES) if k == 3 else rng.choice(RESSEQS) if k == 4 else rng.choice(SEGS)
+        elif o[0] == "add_chain":
+            o[2] = rng.choice(CHAIN_IDS)
+        else:
+            k = rng.choice([4, 5])
+            o[k] = rng.choice(TYPES) if k == 4 else rng.choice(ORDERS)
+    if rng.random() < 0.3:      # same bonds, other insertion order
+        bi = [i for i, o in enumerate(twin) if o[0] == "add_bond"]
+        if len(bi) >= 2:
+            vals = [twin[i] for i in bi]
+            rng.shuffle(vals)
+            for i, v in zip(bi, vals):
+                twin[i] = v
+    return twin
+
+
 def gen_case(rng):
     base = gen_base(rng, 0, rng.random() < 0.15)
-    if rng.random() < 0.35:
-        base += gen_base(rng, 1, False)
+    r = rng.random()
+    if r < 0.25:
+        base = base + gen_base(rng, 1, False)
+    elif r < 0.5:
+        base = base + gen_twin(rng, base)
     return {"ops": base, "tail": gen_tail(rng, rng.randint(1, 7))}
 
 
@@ -332,14 +372,18 @@ PROBES = {
                                     ["add_atom", 0, 0, "C1", "C", 5], ["add_atom", 0, 0, "C2", "C", 9],
                                     ["add_bond", 0, 0, 1, None, None], ["pdb", 0, True]]),
     "conect_del": (["conect_del"], [["new"], ["add_chain", 0, "A"], ["add_residue", 0, 0, "LIG", 4, ""]] +
-                   [["add_atom", 0, 0, "C%d" % i, "C", None] for i in range(6)] +
-                   [["add_bond", 0, 0, i, None, None] for i in range(1, 6)] + [["pdb", 0, True]]),
+                   [["add_atom", 0, 0, "C%d" % i, "C", None] for i in range(10)] +
+                   [["add_bond", 0, i, j, None, None] for i, j in
+                    [(0, 2), (0, 3), (0, 4), (1, 6), (1, 7), (1, 8), (0, 1), (0, 5), (1, 9)]] + [["pdb", 0, True]]),
     "h5_full": (["h5_full"], [["new"], ["add_chain", 0, "X"], ["add_residue", 0, 0, "LIG", 4, ""],
                               ["add_atom", 0, 0, "C1", "C", 5], ["add_atom", 0, 0, "C2", "C", 9],
                               ["add_bond", 0, 0, 1, "Double", 2], ["h5", 0]]),
+    "df_serial": (["df_serial"], [["new"], ["add_chain", 0, None], ["add_residue", 0, 0, "LIG", 4, ""],
+                                  ["add_atom", 0, 0, "C1", "C", 5], ["add_atom", 0, 0, "C2", "C", None], ["df", 0]]),
 }
-PROBE_ORDER = ["cid_copy", "repoint", "cid_join", "cid_subset", "resseq0", "remove_id", "del_bonds", "hash",
-               "conect_num", "conect_del", "h5_full"]
+# the hash probe comes first: every probe with two topologies also shows the hash-equality matrix
+PROBE_ORDER = ["hash", "cid_copy", "repoint", "cid_join", "cid_subset", "resseq0", "remove_id", "del_bonds",
+               "conect_num", "conect_del", "h5_full", "df_serial"]
 
 
 def run_impl(ctx, cases):
@@ -354,6 +398,7 @@ def detect_flags(ctx):
     key = []
     for n, o in zip(names, outs):
         deps, ops = PROBES[n]
+        deps = deps + [f for f in ("hash",) if f not in deps]
         for bits in itertools.product([False, True], repeat=len(deps)):
             v = {f: False for f in FLAGS}
             v.update(dict(zip(deps, bits)))
@@ -397,7 +442,7 @@ def bucket(ops):
 
 RELEVANT = {"cid_copy": {"copy", "join"}, "cid_join": {"join"}, "cid_subset": {"subset"}, "repoint": {"copy", "join"},
             "resseq0": {"subset"}, "remove_id": {"delete"}, "del_bonds": {"delete"}, "hash": None,
-            "conect_num": {"pdb"}, "conect_del": {"pdb"}, "h5_full": {"h5"}}
+            "conect_num": {"pdb"}, "conect_del": {"pdb"}, "h5_full": {"h5"}, "df_serial": {"df"}}
 
 
 # ---------------------------------------------------------------------------- extracted model (bulk evaluation)
@@ -557,7 +602,9 @@ def check_cases(ctx, cases, det):
 def build_cases(ctx):
     rng = ctx.rng
     quick = ctx.tier == "quick"
-    cases = [gen_case(rng) for _ in range(500 if quick else 10000)]
+    # the witnesses of the recorded findings are replayed first on every run
+    cases = [{"ops": PROBES[n][1], "concrete": True} for n in PROBE_ORDER]
+    cases += [gen_case(rng) for _ in range(500 if quick else 10000)]
     # exhaustive small scope: every topology shape with <= 3 (quick) / 4 (thorough) atoms x every subset,
     # then an edit of the source and a copy of the subset
     for n, ops in small_topologies(3 if quick else 4):
